@@ -201,7 +201,7 @@ def _backend(case):
     }
     if case["mask"]:
         spec["slm"] = case["mask"]
-    cfg = {"dt": case["dt"], "eval": [0.5, 1.0], "precision": 1e-9}
+    cfg = {"dt": case["dt"], "eval": [0.12, 0.5, 1.0], "precision": 1e-9}  # 0.12 T = 7.2 ns: an extra, off-grid step before the mask ends
     if case["inter"] == "custom":
         a = np.zeros((n, n))
         k = 0
